@@ -527,14 +527,16 @@ def run(ctx: Ctx) -> None:
                            "VIEW View\nINVARIANT Agree\n"),
            D2: handles_cfg("Spec", one, K1, UK, C1, 3, 6, '{"%s"}' % D2, '{"fork", "call", "rb"}',
                            "VIEW View\nINVARIANT Agree\n")}
-    for d in (D1, D2):
+    # (quick tier: the control for D1 is the workflow-level one below)
+    for d in ctx.pick((D2,), (D1, D2)):
         res = expect_violation(run_tlc("seq/Handles.tla", ctl[d], ctx.scratch, workers=4, timeout=600),
                                "Agree", f"control: {d} alone")
         ctx.add_tlc(res)
     # (c) workflow level: every edit/revert history
     winv = ("VIEW WView\nINVARIANT AgreeF\nINVARIANT NeverReplayInvalidF\nINVARIANT AsBuiltUnlessFired\n"
             "INVARIANT OnlyForkEdge\nPROPERTY NoFastRevertF\n")
-    for stages, nruns in ctx.pick([(2, 4)], [(3, 3), (2, 5)]):
+    # (quick tier: the invariants are checked in the generator runs of section 5)
+    for stages, nruns in ctx.pick([], [(3, 3), (2, 5)]):
         wres = expect_clean(run_tlc("seq/HandlesWf.tla", wf_cfg("WSpec", ALL_DEV, stages, nruns, winv),
                                     ctx.scratch, workers=ctx.pick(4, "auto"), timeout=1500),
                             f"HandlesWf invariants ({stages} stages, {nruns} runs)")
@@ -566,7 +568,7 @@ def run(ctx: Ctx) -> None:
     ctx.sample({"source": "tlc-exhaustive", "behaviour": [s["op"] for s in behs[len(behs) // 2]]})
 
     # ---- 3. spec -> code: long simulated behaviours ---------------------------------------------
-    nsim = ctx.pick(120, 1000)
+    nsim = ctx.pick(80, 1000)
     depth = ctx.pick(6, 8)
     scfg = handles_cfg("GSpec", two, K1, UK, C2, 4, depth, ALL_DEV, SH_MID, "")
     sres = run_tlc("seq/Handles_Gen.tla", scfg, ctx.scratch, workers=1, simulate=f"num={nsim}",
@@ -623,10 +625,10 @@ def run(ctx: Ctx) -> None:
 
     # ---- 5. workflow histories through a real Scheduler -------------------------------------------
     wbehs = []
-    for stages, sim in ctx.pick([(2, None), (3, "num=30")], [(3, None)]):
-        wg = run_tlc("seq/HandlesWf_Gen.tla", wf_cfg("WGSpec", ALL_DEV, stages, 3, winv.split("VIEW WView\n")[1]),
+    for stages, nr, sim in ctx.pick([(2, 4, None), (3, 3, "num=20")], [(3, 3, None)]):
+        wg = run_tlc("seq/HandlesWf_Gen.tla", wf_cfg("WGSpec", ALL_DEV, stages, nr, winv.split("VIEW WView\n")[1]),
                      ctx.scratch,
-                     workers=1 if sim else 4, simulate=sim, depth=6 if sim else None,
+                     workers=1 if sim else 4, simulate=sim, depth=nr + 3 if sim else None,
                      seed=(ctx.seed + 2) if sim else None, timeout=900)
         ctx.require(wg.error is None and not wg.violated, f"HandlesWf_Gen failed: {wg.error} {wg.violated}")
         ctx.add_tlc(wg)
@@ -638,7 +640,7 @@ def run(ctx: Ctx) -> None:
     ctx.rng.shuffle(dev_h)
     ctx.rng.shuffle(plain_h)
     three = [w for w in wbehs if len(w["kinds"]) == 3][: ctx.pick(10, 0)]
-    chosen = dev_h[: ctx.pick(6, 80)] + plain_h[: ctx.pick(8, 140)] + [w for w in three if w not in dev_h[:6]]
+    chosen = dev_h[: ctx.pick(5, 80)] + plain_h[: ctx.pick(5, 140)] + [w for w in three if w not in dev_h[:5]]
     sched = new_scheduler()
     wstats: dict = {}
     for n, wb in enumerate(chosen):
